@@ -169,6 +169,7 @@ func init() {
 }
 
 func (s *Session) execQuery(f []string) (obs string) {
+	noteOp(f)
 	defer func() {
 		if r := recover(); r != nil {
 			obs = fmt.Sprintf("panic %v", r)
